@@ -618,6 +618,11 @@ class CmdHarness(object):
             else:
                 self.on_cmd[name] = False
                 d.setdefault("options", {})[name] = val
+        self.blank = False
+        if "options" not in d and e.branch(z3.Bool("blank_options")):
+            # every option is on the command line and the file keeps an `options:` line with nothing under it
+            d["options"] = None
+            self.blank = True
         lang_cmd = True if self.stale_mode else e.branch(z3.Bool("cmd_language"))
         self.lang_cmd = lang_cmd
         dall["language"] = "c++"
@@ -635,7 +640,7 @@ class CmdHarness(object):
 
     def witness(self, what):
         return {"kernel": "cmdline", "on_command_line": dict(self.on_cmd), "language_on_command_line": self.lang_cmd,
-                "other_value_in_file": dict(self.stale), "what": what}
+                "other_value_in_file": dict(self.stale), "blank_options_in_file": bool(getattr(self, "blank", False)), "what": what}
 
     def judge(self, e, kind, value):
         if kind == "exc":
@@ -669,6 +674,8 @@ def confirm_cmd(w):
                 d.setdefault("options", {})[name] = CMD_STALE[name]
         else:
             d.setdefault("options", {})[name] = val
+    if w.get("blank_options_in_file") and "options" not in d:
+        d["options"] = None
     dall["language"] = "c++"
     if not w["language_on_command_line"]:
         d["language"] = "c++"
